@@ -9,15 +9,45 @@ VERIF = os.path.dirname(os.path.dirname(os.path.abspath(__file__)))
 PROPS = ["C%02d" % i for i in range(1, 21)]
 
 
+TAIL = """
+Rows of the first two waves date from the full matrix run at the time; their diagonal entries (each
+change against the quick check of its own property) were re-run after the generator gained
+fine-grained schedules and the C01/C10/C12 checks the closed-form schedule comparison: 80 of 80 reported with a
+concrete failing input (C07/A2 and C11/B2, formerly `n` at the quick tier, included).  The rows of
+the third wave were produced by the machinery as committed with them (mid-run inspection of the
+read-only API and the timeout_effect oracle were added because of C03/A3 and C08/A3, see DESIGN.md
+section 9.1).
+
+## Harmless rewrites (`harmless/H<k><A|B>/`)
+
+12 behaviour-preserving rewrites written by sub-agents (H1 main loop of co_run, H2 co_shutdown/_tidy_tasks,
+H3 window.py + Scheduler.co_run / job.py life cycle, H4 graph queries, H5 dot export / sequence.py + requires,
+H6 whole-package pyupgrade-style pass / type hints + helper extraction), each with the repository's
+tests passing, each run against all 20 quick checks: 240 runs, every one silent (no VIOLATION line
+of either kind).  H7A (by hand): the window rewritten on asyncio.Semaphore instead of the bounded
+Queue, a different primitive with the same behaviour: the R checks that exercise windows stay silent.
+"""
+
+
 def main():
     rows = {}
+    # rows already in MATRIX.md (earlier waves) are kept unless a log given now overrides them
+    mpath = os.path.join(VERIF, "seeded", "MATRIX.md")
+    if os.path.exists(mpath):
+        for line in open(mpath):
+            m = re.match(r"\| (C\d\d)/([AB][23]?) \| (.*) \|\s*$", line)
+            if m and "not evaluated" not in line:
+                cells = [c.strip() for c in m.group(3).split("|")]
+                if len(cells) == len(PROPS):
+                    rows[(m.group(1), m.group(2))] = {q: {"**V**": "VIOL", "n": "nofail", ".": "ok"}[c]
+                                                      for q, c in zip(PROPS, cells)}
     for path in sys.argv[1:]:
         for line in open(path):
-            m = re.match(r"== (C\d\d)/([AB]2?) ->(.*)", line)
+            m = re.match(r"== (C\d\d)/([AB][23]?) ->(.*)", line)
             if m:
                 rows[(m.group(1), m.group(2))] = dict(x.split(":") for x in m.group(3).split())
     out = ["# Seeded changes: which check reports what", "",
-           "Each change was written by a fresh sub-agent that saw only the text of one property and a scratch (variants A, B: first wave; A2, B2: second wave, asked for subtle changes)",
+           "Each change was written by a fresh sub-agent that saw only the text of one property and a scratch (variants A, B: first wave; A2, B2: second wave, asked for subtle changes; A3, B3: third wave, changes disguised as improvements -- optimisations, modernisations, refactorings, robustness tweaks)",
            "worktree of /repo.  Confirmed here for every one: `demo.py` exits 0 on the unchanged tree and 1 on the",
            "changed tree, and the repository's test suite still passes with the change applied (the timing test",
            "test_nesting1, flaky under load and dropped from the pinned baseline, and test_window under heavy",
@@ -28,7 +58,7 @@ def main():
            "proof obligation no longer checks), . = the check stays silent.  Quick tier, seed 0.", "",
            "| seed | " + " | ".join(p[1:] for p in PROPS) + " |", "|---|" + "---|" * len(PROPS)]
     for p in PROPS:
-        for v in ("A", "B", "A2", "B2"):
+        for v in ("A", "B", "A2", "B2", "A3", "B3"):
             d = os.path.join(VERIF, "seeded", p, v)
             if not os.path.isdir(d):
                 continue
@@ -62,6 +92,7 @@ def main():
                 out.append("| %s/%s | (not evaluated) |" % (p, v))
     missed = [k for k, r in rows.items() if r.get(k[0]) == "ok"]
     out += ["", "Seeds not reported by the check of their own property: %s" % (", ".join("%s/%s" % k for k in sorted(missed)) or "none"), ""]
+    out += TAIL.splitlines()
     open(os.path.join(VERIF, "seeded", "MATRIX.md"), "w").write("\n".join(out) + "\n")
     print("rows:", len(rows), "missed:", missed)
 
